@@ -19,6 +19,7 @@ class StubNautilusBound(object):
     that changes on sample() and is persisted by write/update/read."""
 
     n_created = 0          # reset by the harness per path
+    pools_seen = []
     max_sample_calls = 2   # unrolling bound per path (BeyondBound beyond)
 
     def __init__(self, idx, n_dim=2, token=0):
@@ -47,6 +48,7 @@ class StubNautilusBound(object):
     def sample(self, n_points=100, return_points=True, pool=None):
         W = _W()
         np = W.np
+        type(self).pools_seen.append(pool)
         self.token += 1
         if not return_points:
             return None
@@ -111,6 +113,7 @@ class StubNautilusBound(object):
     def new_path(cls, next_index=1, max_sample_calls=2):
         cls.next_index = next_index
         cls.computed = []
+        cls.pools_seen = []
         cls.calls_this_path = 0
         cls.max_sample_calls = max_sample_calls
 
